@@ -36,7 +36,8 @@ CHECK_DEADLOCK FALSE
 """
     ctx.mc("Bus", None, cfg_text=mccfg % ("{1, 2}", "{1, 2}", 1), workers=vf.NCPU, timeout=3000)
     if thorough:
-        ctx.mc("Bus", None, cfg_text=mccfg % ("{1, 2, 3}", "{1, 2}", 1), workers=vf.NCPU, timeout=3000)
+        # (3 listeners x 2 senders does not finish: > 10 M distinct states after 25 min; measured 2026-10-04)
+        ctx.mc("Bus", None, cfg_text=mccfg % ("{1, 2, 3}", "{1}", 2), workers=vf.NCPU, timeout=3000)
         ctx.mc("Bus", None, cfg_text=mccfg % ("{1, 2}", "{1}", 2), workers=vf.NCPU, timeout=3000)
     n = 40000 if thorough else 1000
     cases = gen(ctx, "{1, 2}", "{1, 2}", 2, "num=%d" % n, 2)
